@@ -18,7 +18,7 @@ import (
 
 var c20Values = []string{"", "0", "1", "-1", "+1", "007", "1.5", "1e3", "NaN", "Inf", "-Inf", "0x10", "1_0", "true", "T", "FALSE", "tRue", "fALSE", "t ", "9223372036854775807",
 	"9223372036854775808", "-9223372036854775809", "18446744073709551615", "18446744073709551616", "é", "\xff",
-	"100%41.txt", "a%2Fb", "%31", "1%"} // text that looks percent-escaped is text: the accessors decode nothing
+	"100%41.txt", "a%2Fb", "%31", "1%", "-0", "-0.0"} // text that looks percent-escaped is text: the accessors decode nothing
 
 var c20Keys = []string{"", "a", "b"}
 
@@ -344,7 +344,7 @@ func init() {
 		rc.Set("depth_bound", depth)
 		rc.Set("alphabet_size", len(c20Alphabet()))
 		rc.Assume = append(rc.Assume,
-			"histories of Set(k,v) / Delete(k) / Reset() / Destroy()+NewContext() over keys {\"\", a, b} and 24 values (numeric edge cases around the int64/uint64 limits, signs, NaN/Inf, hex and underscore forms, booleans, trailing space, non-ASCII and non-UTF-8 bytes), dedup on the reflective dump of the context plus the map model; a second pass enumerates every history of length <= 2 without dedup",
+			"histories of Set(k,v) / Delete(k) / Reset() / Destroy()+NewContext() over keys {\"\", a, b} and 32 values (numeric edge cases, negative zero (compared by bit pattern) around the int64/uint64 limits, signs, NaN/Inf, hex and underscore forms, booleans, trailing space, non-ASCII and non-UTF-8 bytes), dedup on the reflective dump of the context plus the map model; a second pass enumerates every history of length <= 2 without dedup",
 			"after every step all accessors are compared on keys \"\", a, b and an absent key: Count/Get/Exists/String/Range against the map model; Int/Uint/Bool/Float against strconv (value, error text, NaN by bit pattern), ErrParamNotExists() by identity for absent keys; every Must* variant with two different defaults",
 			"Destroy()+NewContext() runs on the LIFO pool shim, so the context obtained is the one just released, dirtied with path, node, router name and parameters")
 		explore.BFS(rc, "c20/expand", struct{}{}, depth, true, "C20")
